@@ -12,7 +12,7 @@ CLAIMS = {
  "C01": dict(
    text="Theorems: every execution in which each operation takes effect at one instant between invocation and response (the owner-side step under the fragment lock) is "
         "linearizable w.r.t. the register specification, for any number of clients and interleavings (C01_commit_points_linearize); the linearizability checker that judges "
-        "recorded histories is sound (C01_checker_sound). Executed: 2-5 concurrent clients over 6 entry paths on clusters (N,R) in {(3,2),(3,3),(2,1),(1,1)} with multi-table "
+        "recorded histories is sound (C01_checker_sound); the owner-side model Model/DMap.v implements the register specification key by key, for every routing and replica count, whatever happens to the other keys and DMaps (C01_dmap_step_refines, C01_dmap_refines_register), hence its executions with commit points have linearizable per-key histories (C01_dmap_executions_linearize). Executed: 2-5 concurrent clients over 6 entry paths on clusters (N,R) in {(3,2),(3,3),(2,1),(1,1)} with multi-table "
         "fragments, plus writers racing back-to-back janitor passes; every per-key history is judged by the checker inside Coq (conditional puts also with an expiry option). The sequential single-key semantics through "
         "every path (incl. overwrite-then-delete across tables) is C04/C15's differential.",
    note=TB + "that the Go fragment lock really makes the owner-side stretches atomic is not proved (runtime): it is what the concurrent histories attack; the checker's search is exhaustive below its fuel (= history length + 2).",
@@ -45,21 +45,21 @@ CLAIMS = {
    ref="DESIGN.md 9 C03"),
  "C07": dict(
    text="Theorems: atomic commit points imply linearizability w.r.t. the counter/swap specification (C07_commit_points_linearize), checker soundness, and the sum formula (final = "
-        "initial + sum of deltas in any order). Executed: 2-4 concurrent callers through 7 entry points (embedded owner/non-owner/backup, cluster client, raw RESP, pipeline) in "
+        "initial + sum of deltas in any order); the owner-side model Model/DMap.v implements, key by key and for every routing, the counter with fetch-and-add and swap over Go's wrapping int64 (C07_dmap_step_refines_counter; Itoa/ParseInt round trip C07_int_text_round_trip), hence its executions with commit points have linearizable per-key histories (C07_dmap_executions_linearize). Executed: 2-4 concurrent callers through 7 entry points (embedded owner/non-owner/backup, cluster client, raw RESP, pipeline) in "
         "Incr/Decr, GetPut and mixed modes; closed-form predicates (sum, single chain) and the linearizability checker inside Coq on every history. Incr on counters that cannot be read with ReadQuorum copies (quorum harness) must be refused (C07_incr_refused_when_unreadable). A fourth mode mixes Incr/Decr with IncrByFloat of integral amounts on one key (same sum rule, same checker).",
    note=TB + "the owner-side per-key mutex makes Get;compute;Put atomic (Go runtime), attacked by the concurrent runs; IncrByFloat runs concurrently with integral amounts only (float text is an oracle).",
    ref="DESIGN.md 9 C07"),
  "C08": dict(
    text="Theorems over Model/DMap.v: Lock succeeds iff the key is free or its holder's timeout elapsed and otherwise changes nothing; at most one token holds a key; Unlock/Lease with a "
         "token that is not the holder's fail and change nothing; a timed lock is held exactly until now+timeout through any path, an untimed one until unlocked; checker soundness for "
-        "the lock specification; the known race D23 is proved as a _refuted witness. Executed: scripted token/timeout sequences through 6 paths + 3-6 competing lockers with a "
+        "the lock specification; Model/DMap.v's Lock/Unlock implement the lock specification key by key for every routing (C08_dmap_step_refines_lock_spec), hence executions with commit points have linearizable lock histories (C08_dmap_executions_linearize); the known race D23 is proved as a _refuted witness. Executed: the holder's Unlock sent 2-4 times at once while competitors wait (exactly one succeeds), scripted token/timeout sequences through 6 paths + 3-6 competing lockers with a "
         "critical-section occupancy counter and the lock-spec linearizability checker. Locks whose entries sit in older tables after the fragment rolled over; a Lease that shortens a timed lock.",
    note=TB + "D23 (Unlock/Lease not atomic w.r.t. expiry + re-acquisition) is an open known finding; real time is compared with a 40 ms margin; the 10 ms retry timer of tryLock is not modelled.",
    ref="DESIGN.md 9 C08"),
  "C10": dict(
    text="Theorems (Model/LRU.v, victim = oracle constrained to be a key of the fragment): after ANY sequence of Puts a fragment holds at most max(1, MaxKeys/owned) keys and, with "
         "equally sized entries, at most MaxInuse/owned + one entry of bytes; Puts never fail, the key just written is present; n partitions within their share hold at most "
-        "max(n, MaxKeys) keys; a background pass never removes a key accessed within the idle window and removes a sampled key idle past it. Executed: grid MaxKeys x LRUSamples x "
+        "max(n, MaxKeys) keys; a background pass never removes a key accessed within the idle window and removes a sampled key idle past it; a read is an access (C10_read_keeps_alive). Executed: MaxKeys AND MaxInuse together with a share of one key / one entry (D51 fixed: the second limit was judged on stale numbers and the Put failed),  grid MaxKeys x LRUSamples x "
         "key streams and MaxInuse on 1- and 3-member clusters with per-partition Stats and key sets after EVERY Put (victims reconstructed and replayed by the model), idle scenario. Idle eviction also over fragments of several tables (keys in read-only tables kept alive by reads only).",
    note=TB + "'eventually disappears' is the sampler's fairness (oracle); ownership is stable during a scenario.",
    ref="DESIGN.md 9 C10"),
@@ -78,7 +78,7 @@ CLAIMS = {
  "C06": dict(
    text="Theorems: sortVersions is a descending permutation whose head is the last maximal element; Get returns one of the copies with maximal timestamp; "
         "merging fragments in any permutation with any re-deliveries keeps per key a copy of maximal timestamp (exactly the newest one when timestamps are "
-        "distinct); read-repair brings the owner's and every reachable stale backup copy to the winner. Executed on real clusters over an exhaustive small "
+        "distinct); read-repair brings the owner's and every reachable stale backup copy - expired or not - to the winner; over the whole layout no copy of any reachable holder, expired or not, is newer than a value the read returns (C06_cluster_get_newest; D49 fixed: a holder used to hide its expired copy from the reader). Executed on real clusters over an exhaustive small "
         "space of copy layouts (ties, missing copies, RR on/off) and all merge orders of 3 fragments on every run. Layouts with an expired newest copy on the owner (only the read's result is judged there).",
    note=TB + "the read-repair/Delete race (D24) is an open known finding with a _refuted theorem and a deterministic witness; msgpack/roaring serialisation are oracles.",
    ref="DESIGN.md 9 C06, docs/DESIGN-C05-C06.md"),
